@@ -263,9 +263,13 @@ def check(case, ctx):
                 diags.append({"kind": "tree-equality-disagrees", "equal": eq, "tree_eq": ta == tb})
             if case.get("cli"):
                 pa, pb = write_files(case)
-                res = monitors.run_main(["--color", "--no-status", pa, pb] + cli_args(case))
+                status_on = core.case_hash(case) % 3 == 0       # default user path: status on, real file descriptors
+                res = monitors.run_main(["--color"] + ([] if status_on else ["--no-status"]) + [pa, pb] + cli_args(case),
+                                        real_files=status_on)
                 if ctx is not None:
                     ctx.count("cli_inprocess")
+                    if status_on:
+                        ctx.count("cli_with_status_output_and_real_fds")
                 # the edit-list modes compute the exit status on a different path (get_all_edits)
                 h = core.case_hash(case) % 4
                 if h < 2:
